@@ -1,6 +1,10 @@
 import AgdbRaft.Props.C30
-import AgdbRaft.Props.C30n3
+import AgdbRaft.Props.C30n3r
+#print axioms Raft.exploreSetP_sound
 #print axioms Raft.exploreSet_sound
+#print axioms Raft.reachesWithinP_seq
 #print axioms Raft.C30_n1
 #print axioms Raft.C30_n2
 #print axioms Raft.C30_n3_election
+#print axioms Raft.C30_n3_replication
+#print axioms Raft.C30_n3
